@@ -411,6 +411,64 @@ func c09(c *Ctx) {
 			}
 			return true
 		})
+		// every position the iterator takes is deleted before the iterator moves on: no path from one First()/Next() to
+		// the next Next() avoids batch.Delete(iterator.Key())
+		{
+			info := fi.Info()
+			g := c.Graph(fi)
+			isIterCall := func(n ast.Node, names ...string) bool {
+				found := false
+				if n == nil {
+					return false
+				}
+				for _, call := range astx.Calls(n, false) {
+					se, ok := ast.Unparen(call.Fun).(*ast.SelectorExpr)
+					if !ok {
+						continue
+					}
+					fn := astx.Callee(info, call)
+					if fn == nil || fn.Pkg() == nil || !strings.Contains(fn.Pkg().Path(), "goleveldb") {
+						continue
+					}
+					for _, nm := range names {
+						if se.Sel.Name == nm {
+							found = true
+						}
+					}
+				}
+				return found
+			}
+			var adv, del []int
+			for _, v := range g.Nodes() {
+				if isIterCall(v.Node, "Next", "First") {
+					adv = append(adv, v.ID)
+				}
+				if isIterCall(v.Node, "Delete") && isIterCall(v.Node, "Key") {
+					del = append(del, v.ID)
+				}
+			}
+			isDel := func(x int) bool {
+				for _, d := range del {
+					if d == x {
+						return true
+					}
+				}
+				return false
+			}
+			skipped := false
+			for _, a := range adv {
+				for _, e := range g.V[a].Succ {
+					reach := g.Reach(e.To, isDel, nil)
+					for _, b := range adv {
+						if isIterCall(g.V[b].Node, "Next") && (reach[b] || b == e.To) && !isDel(e.To) {
+							skipped = true
+						}
+					}
+				}
+			}
+			r.Check(!skipped && len(adv) >= 2 && len(del) >= 1, "C09.L4", fi.Name(), "no key is stepped over", c.P.Pos(fi.Node().Pos()), "every path from First()/Next() to the next Next() passes batch.Delete(iterator.Key())",
+				"the iterator is advanced twice without the key in between being deleted (e.g. an extra Next() after flushing a partial batch): entries inside the range survive DeleteRange, so raft finds stale entries after a truncation or compaction")
+		}
 		r.Check(okDel, "C09.L4", fi.Name(), "deletes every key of the range", c.P.Pos(fi.Node().Pos()), "unconditional batch.Delete(iterator.Key()) in the loop", "DeleteRange does not delete every key the iterator yields")
 	}
 	var _ = cfgx.NoReturn
